@@ -122,4 +122,11 @@ CLAIMS['C13'] = {
   'text': "Decides: refinement off -> no ?gsrfs and ferr = berr = 1.0 exactly; refinement on -> ?gsrfs on the equilibrated system with the solve's transpose sense, between solve and unscaling; inside ?gsrfs the residual, correction and estimator solves use the transpose letters the system requires (incl. C for CONJ in complex units) with the right scaling side; at most 5 updates; BERR is recomputed after every update on every path to the exit. Equality of BERR with the true backward error and finiteness of FERR are not decided.",
   'note': 'Representative kase values {0,1,2}; data-dependent loop tests are explored both ways.',
 }
+CLAIMS['C14'] = {
+  'level': 'other',
+  'technique': 'static analysis: flag-partitioned event oracle over all documented flag spellings (R3), field-sensitive may-write sets (R10), sibling agreement (R9)',
+  'design_ref': 'DESIGN.md 5 C14',
+  'text': 'Decides for all four types: the (uplo, trans, diag) -> dense-kernel dispatch table and sweep direction of sp_?trsv; vector lengths, start offsets, beta scaling extent and alpha/beta short-cuts of sp_?gemv for every documented spelling; which spellings the screening accepts; that each kernel can write only its output operand (sound over-approximation); permutation roles and kernel order of ?gstrs. The computed values themselves are not decided.',
+  'note': 'Known findings: sp_?trsv rejects the documented lower-case spellings, sp_?gemv rejects t and c. One defect (vector lengths for TRANS = n in the real variants) was repaired by a fix: commit. The rule for sp_?gemv anchors on the locals lenx/leny/kx/ky (exit 2 if they vanish).',
+}
 NOT_APPLICABLE = {}
